@@ -232,6 +232,27 @@ func c17Funcs(c *Ctx) int {
 				c.Violation("panic:func:"+name, fmt.Sprintf("%s(%s) panicked: %s", name, t.Desc, p), c17Case{"func", "", name, t.Desc}, len(t.Desc))
 				continue
 			}
+			// an inert argument (zero, freed, nil pointer, pointer to a zero value) never converts
+			if name == "ConvertStack" || name == "ConvertCondition" {
+				inert := false
+				for _, w := range []string{"(nil)", "Stack{}", "Condition{}", "StackAlias{}", "CondAlias{}", "freed", "nil"} {
+					if strings.Contains(t.Desc, w) {
+						inert = true
+					}
+				}
+				if inert && len(res) == 2 {
+					zero := true
+					switch h := res[0].Interface().(type) {
+					case stackage.Stack:
+						zero = h.IsZero()
+					case stackage.Condition:
+						zero = h.IsZero()
+					}
+					if res[1].Bool() || !zero {
+						c.Violation("inert-argument-converted:"+name, fmt.Sprintf("%s(%s) = (zero=%v, %v), want (zero, false)", name, t.Desc, zero, res[1].Bool()), c17Case{"func", "", name, t.Desc}, len(t.Desc))
+					}
+				}
+			}
 			// whatever a constructor returns must itself be usable
 			for _, r := range res {
 				if r.Type() == stackType || r.Type() == condType {
